@@ -10,6 +10,7 @@ import (
 	"os"
 	"sort"
 	"sync"
+	"testing/iotest"
 
 	"github.com/foxglove/mcap/go/mcap"
 	"github.com/klauspost/compress/zstd"
@@ -146,8 +147,13 @@ func CallsReuse(w *wl.Workload, mo MapOrder, attSrc func(a *wl.Attachment) io.Re
 			if len(a.Data) == 0 && a.CreateTime%2 == 1 {
 				return nil // "no data" said the obvious way: DataSize 0 and no reader at all
 			}
-			if (len(a.Data)+int(a.LogTime%5))%3 == 1 {
+			switch (len(a.Data) + int(a.LogTime%5)) % 4 {
+			case 1:
 				return plainReader{bytes.NewReader(a.Data)} // nothing but Read: no Len, no WriteTo, no Seek
+			case 2:
+				// the final bytes arrive together with io.EOF, as the io.Reader contract allows (HTTP bodies,
+				// some decompressors do)
+				return iotest.DataErrReader(plainReader{bytes.NewReader(a.Data)})
 			}
 			return bytes.NewReader(a.Data)
 		}
